@@ -1,53 +1,53 @@
-(* Cache/CacheMemProofs.v — invariants of the memory-cache transition system (every reachable state = every
+(* Cache/CacheMemProofs.v — invariants of the memory-cache transition system (every reachable state_cm = every
    interleaving), refinement of the quiescent operations, value round trip. *)
 From Mos Require Import Base.Prelude Codec.Name Codec.Msg Codec.NameProofs Codec.SafetyProofs Codec.WfProofs
   Codec.RoundtripProofs Cache.CacheMem.
 From Coq Require Import ZifyN ZifyNat ZifyBool.
 
 (* ---------- the trace property: every hit is preceded by a store of the same key and value ---------- *)
-Fixpoint hits_ok (tr : list event) : Prop :=          (* trace is newest first *)
+Fixpoint hits_ok (tr : list event_cm) : Prop :=          (* trace is newest first *)
   match tr with
   | [] => True
-  | EvHit k v :: r => In (EvStore k v) r /\ hits_ok r
+  | CmHit k v :: r => In (CmStore k v) r /\ hits_ok r
   | _ :: r => hits_ok r
   end.
 
-Lemma hits_ok_split tr : hits_ok tr -> forall l1 k v l2, tr = l1 ++ EvHit k v :: l2 -> In (EvStore k v) l2.
+Lemma hits_ok_split tr : hits_ok tr -> forall l1 k v l2, tr = l1 ++ CmHit k v :: l2 -> In (CmStore k v) l2.
 Proof.
   induction tr as [|ev tr IH]; intros H l1 k v l2 E.
   - destruct l1; discriminate.
   - destruct l1 as [|x l1]; cbn in E; inversion E; subst; cbn in H.
     + tauto.
-    + assert (Hr : hits_ok (l1 ++ EvHit k v :: l2)) by (destruct x; cbn in H; tauto).
+    + assert (Hr : hits_ok (l1 ++ CmHit k v :: l2)) by (destruct x; cbn in H; tauto).
       eapply IH; eauto.
 Qed.
 
 (* ---------- the invariant ---------- *)
-Definition ent_ok (tr : list event) (x : entry) : Prop :=
+Definition ent_ok (tr : list event_cm) (x : entry_cm) : Prop :=
   (e_w x <> None -> e_r x = []) /\                       (* a held write lock excludes readers *)
-  ((forall t, e_w x <> Some (OwnT t)) ->                 (* unless a Store is filling it, an entry is consistent *)
-   forall v, e_v x = Some v -> In (EvStore (e_k x) v) tr).
+  ((forall t, e_w x <> Some (OwnT t)) ->                 (* unless a Store is filling it, an entry_cm is consistent *)
+   forall v, e_v x = Some v -> In (CmStore (e_k x) v) tr).
 
-Definition thr_ok (en : nat -> entry) (tr : list event) (t : nat) (p : pc) : Prop :=
+Definition thr_ok (en : nat -> entry_cm) (tr : list event_cm) (t : nat) (p : pc_cm) : Prop :=
   match p with
-  | SNew k v _ _ | SLock k v _ _ _ => In (EvStore k v) tr
-  | SFillK k v _ _ e => In (EvStore k v) tr /\ e_w (en e) = Some (OwnT t)
-  | SFillV k v _ _ e => In (EvStore k v) tr /\ e_w (en e) = Some (OwnT t) /\ e_k (en e) = k
+  | SNew k v _ _ | SLock k v _ _ _ => In (CmStore k v) tr
+  | SFillK k v _ _ e => In (CmStore k v) tr /\ e_w (en e) = Some (OwnT t)
+  | SFillV k v _ _ e => In (CmStore k v) tr /\ e_w (en e) = Some (OwnT t) /\ e_k (en e) = k
   | GCheck _ e => In t (e_r (en e))
   | GCopy k e => In t (e_r (en e)) /\ e_k (en e) = k /\ e_v (en e) <> None
-  | GUnlockHit k _ v => In (EvStore k v) tr
+  | GUnlockHit k _ v => In (CmStore k v) tr
   | _ => True
   end.
 
-Definition Inv' (en : nat -> entry) (th : nat -> pc) (rw : list (list N * nat)) (tr : list event) : Prop :=
+Definition Inv' (en : nat -> entry_cm) (th : nat -> pc_cm) (rw : list (list N * nat)) (tr : list event_cm) : Prop :=
   (forall e, ent_ok tr (en e)) /\
   (forall t, thr_ok en tr t (th t)) /\
   (forall k e, In (k, e) rw -> e_w (en e) = Some OwnRel) /\
   hits_ok tr.
 
-Definition Inv (s : state) : Prop := Inv' (ents s) (thr s) (relw s) (trace s).
+Definition Inv (s : state_cm) : Prop := Inv' (ents s) (thr s) (relw s) (trace s).
 
-Definition grows (tr tr' : list event) : Prop := forall ev, In ev tr -> In ev tr'.
+Definition grows (tr tr' : list event_cm) : Prop := forall ev, In ev tr -> In ev tr'.
 Lemma grows_refl tr : grows tr tr. Proof. intros ev H; exact H. Qed.
 Lemma grows_cons ev tr : grows tr (ev :: tr). Proof. intros x H; right; exact H. Qed.
 #[local] Hint Resolve grows_refl grows_cons : core.
@@ -55,19 +55,19 @@ Lemma grows_cons ev tr : grows tr (ev :: tr). Proof. intros x H; right; exact H.
 Lemma ent_ok_grows tr tr' x : grows tr tr' -> ent_ok tr x -> ent_ok tr' x.
 Proof. intros G [A B]. split; auto. Qed.
 
-Lemma upd_same {A} (f : nat -> A) i x : upd f i x i = x.
-Proof. unfold upd. now rewrite Nat.eqb_refl. Qed.
-Lemma upd_other {A} (f : nat -> A) i x j : j <> i -> upd f i x j = f j.
-Proof. unfold upd. intros H. apply Nat.eqb_neq in H. now rewrite H. Qed.
+Lemma upd_same {A} (f : nat -> A) i x : cm_upd f i x i = x.
+Proof. unfold cm_upd. now rewrite Nat.eqb_refl. Qed.
+Lemma upd_other {A} (f : nat -> A) i x j : j <> i -> cm_upd f i x j = f j.
+Proof. unfold cm_upd. intros H. apply Nat.eqb_neq in H. now rewrite H. Qed.
 
 (* a thread's obligations survive when only the trace grows *)
 Lemma thr_ok_grows en tr tr' t p : grows tr tr' -> thr_ok en tr t p -> thr_ok en tr' t p.
 Proof. intros G H. destruct p; cbn in *; intuition. Qed.
 
-(* ... when a WRITER (not this thread) changes an entry that had no readers *)
+(* ... when a WRITER (not this thread) changes an entry_cm that had no readers *)
 Lemma thr_ok_upd_w en tr tr' e x t p :
   grows tr tr' -> e_r (en e) = [] -> e_w (en e) <> Some (OwnT t) ->
-  thr_ok en tr t p -> thr_ok (upd en e x) tr' t p.
+  thr_ok en tr t p -> thr_ok (cm_upd en e x) tr' t p.
 Proof.
   intros G Hr Hw H.
   destruct p; cbn in *; auto;
@@ -76,12 +76,12 @@ Proof.
          |rewrite upd_other by exact Hne; intuition]).
 Qed.
 
-(* ... when a READER step changes only the reader set of an entry, keeping every other reader *)
+(* ... when a READER cm_step changes only the reader set of an entry_cm, keeping every other reader *)
 Lemma thr_ok_upd_r en tr tr' e x t0 t p :
   grows tr tr' -> t <> t0 ->
   e_w x = e_w (en e) -> e_k x = e_k (en e) -> e_v x = e_v (en e) ->
   (forall t', t' <> t0 -> In t' (e_r (en e)) -> In t' (e_r x)) ->
-  thr_ok en tr t p -> thr_ok (upd en e x) tr' t p.
+  thr_ok en tr t p -> thr_ok (cm_upd en e x) tr' t p.
 Proof.
   intros G Hne Ew Ek Ev Er H.
   destruct p; cbn in *; auto;
@@ -93,9 +93,9 @@ Qed.
 Lemma unlocked_true x : unlocked x = true -> e_w x = None /\ e_r x = [].
 Proof. unfold unlocked. destruct (e_w x), (e_r x); try discriminate; auto. Qed.
 
-Lemma mem_In e l : mem e l = true -> In e l.
+Lemma mem_In e l : cm_mem e l = true -> In e l.
 Proof.
-  unfold mem. intros H. apply existsb_exists in H. destruct H as (x & Hx & E).
+  unfold cm_mem. intros H. apply existsb_exists in H. destruct H as (x & Hx & E).
   apply Nat.eqb_eq in E. now subst.
 Qed.
 
@@ -113,13 +113,13 @@ Proof.
   intros ->. rewrite Nat.eqb_refl in H2. discriminate.
 Qed.
 
-(* generic re-establishment after one entry and one thread changed *)
+(* generic re-establishment after one entry_cm and one thread changed *)
 Lemma inv_step en th rw tr e x t p tr' rw' :
   Inv' en th rw tr -> grows tr tr' -> hits_ok tr' -> ent_ok tr' x ->
-  (forall t', t' <> t -> thr_ok en tr t' (th t') -> thr_ok (upd en e x) tr' t' (th t')) ->
-  thr_ok (upd en e x) tr' t p ->
-  (forall k' e', In (k', e') rw' -> e_w (upd en e x e') = Some OwnRel) ->
-  Inv' (upd en e x) (upd th t p) rw' tr'.
+  (forall t', t' <> t -> thr_ok en tr t' (th t') -> thr_ok (cm_upd en e x) tr' t' (th t')) ->
+  thr_ok (cm_upd en e x) tr' t p ->
+  (forall k' e', In (k', e') rw' -> e_w (cm_upd en e x e') = Some OwnRel) ->
+  Inv' (cm_upd en e x) (cm_upd th t p) rw' tr'.
 Proof.
   intros (I1 & I2 & I3 & I4) G Hh Hx Ht Hp Hr. split; [|split; [|split]]; auto.
   - intros e0. destruct (Nat.eq_dec e0 e) as [->|Hne]; [rewrite upd_same; apply Hx|rewrite upd_other by exact Hne].
@@ -128,9 +128,9 @@ Proof.
     rewrite upd_other by exact Hne. apply Ht; auto.
 Qed.
 
-(* only a thread's pc (and possibly the trace) changed *)
+(* only a thread's pc_cm (and possibly the trace) changed *)
 Lemma inv_thr en th rw tr t p tr' :
-  Inv' en th rw tr -> grows tr tr' -> hits_ok tr' -> thr_ok en tr' t p -> Inv' en (upd th t p) rw tr'.
+  Inv' en th rw tr -> grows tr tr' -> hits_ok tr' -> thr_ok en tr' t p -> Inv' en (cm_upd th t p) rw tr'.
 Proof.
   intros (I1 & I2 & I3 & I4) G Hh Hp. split; [|split; [|split]]; auto.
   - intros e0. apply (ent_ok_grows tr tr'); auto.
@@ -138,12 +138,12 @@ Proof.
     rewrite upd_other by exact Hne. eapply thr_ok_grows; eauto.
 Qed.
 
-(* only an entry changed (releaseEntry's steps) *)
+(* only an entry_cm changed (releaseEntry's steps) *)
 Lemma inv_ent en th rw tr e x rw' :
   Inv' en th rw tr -> ent_ok tr x ->
-  (forall t', thr_ok en tr t' (th t') -> thr_ok (upd en e x) tr t' (th t')) ->
-  (forall k' e', In (k', e') rw' -> e_w (upd en e x e') = Some OwnRel) ->
-  Inv' (upd en e x) th rw' tr.
+  (forall t', thr_ok en tr t' (th t') -> thr_ok (cm_upd en e x) tr t' (th t')) ->
+  (forall k' e', In (k', e') rw' -> e_w (cm_upd en e x e') = Some OwnRel) ->
+  Inv' (cm_upd en e x) th rw' tr.
 Proof.
   intros (I1 & I2 & I3 & I4) Hx Ht Hr. split; [|split; [|split]]; auto.
   intros e0. destruct (Nat.eq_dec e0 e) as [->|Hne]; [rewrite upd_same; apply Hx|rewrite upd_other by exact Hne; apply I1].
@@ -151,7 +151,7 @@ Qed.
 
 Lemma relw_keep en (rw : list (list N * nat)) e x :
   (forall k' e', In (k', e') rw -> e_w (en e') = Some OwnRel) -> e_w x = e_w (en e) ->
-  forall k' e', In (k', e') rw -> e_w (upd en e x e') = Some OwnRel.
+  forall k' e', In (k', e') rw -> e_w (cm_upd en e x e') = Some OwnRel.
 Proof.
   intros H E k' e' Hin. destruct (Nat.eq_dec e' e) as [->|Hne];
     [rewrite upd_same, E; eauto|rewrite upd_other by exact Hne; eauto].
@@ -159,15 +159,15 @@ Qed.
 
 Lemma relw_contra en (rw : list (list N * nat)) e x o :
   (forall k' e', In (k', e') rw -> e_w (en e') = Some OwnRel) -> e_w (en e) = o -> o <> Some OwnRel ->
-  forall k' e', In (k', e') rw -> e_w (upd en e x e') = Some OwnRel.
+  forall k' e', In (k', e') rw -> e_w (cm_upd en e x e') = Some OwnRel.
 Proof.
   intros H E Hne k' e' Hin. destruct (Nat.eq_dec e' e) as [->|Hne2];
     [exfalso; apply Hne; rewrite <- E; eauto|rewrite upd_other by exact Hne2; eauto].
 Qed.
 
-Lemma init_inv : Inv init.
+Lemma init_inv : Inv cm_init.
 Proof.
-  unfold Inv, Inv', init; cbn. split; [|split; [|split]]; auto; try tauto.
+  unfold Inv, Inv', cm_init; cbn. split; [|split; [|split]]; auto; try tauto.
   intros e. split; cbn; [tauto|discriminate].
 Qed.
 
@@ -212,7 +212,7 @@ Proof.
       apply (inv_thr _ _ _ (trace s)); cbn; auto.
   - (* GTry *)
     destruct c as [i|].
-    + destruct (mem e (map snd (pend s)) || mem e (issued s)); inversion H; subst; cbn.
+    + destruct (cm_mem e (map snd (pend s)) || cm_mem e (issued s)); inversion H; subst; cbn.
       apply (inv_thr _ _ _ (trace s)); cbn; auto.
     + destruct (e_w (ents s e)) eqn:Ew; inversion H; subst; cbn; clear H.
       * apply (inv_thr _ _ _ (trace s)); cbn; auto.
@@ -253,9 +253,9 @@ Proof.
     + eapply relw_keep; eauto.
 Qed.
 
-Lemma step_inv s l s' : Inv s -> step s l = Some s' -> Inv s'.
+Lemma step_inv s l s' : Inv s -> cm_step s l = Some s' -> Inv s'.
 Proof.
-  intros I H. destruct l; cbn [step] in H.
+  intros I H. destruct l; cbn [cm_step] in H.
   - (* LStore *) inversion H; subst. unfold Inv; cbn. apply (inv_thr _ _ _ (trace s)); cbn; auto. apply I.
   - (* LGet *) inversion H; subst. unfold Inv; cbn. apply (inv_thr _ _ _ (trace s)); cbn; auto. apply I.
   - eapply step_thread_inv; eauto.
@@ -286,52 +286,52 @@ Proof.
         intros t0. rewrite Hw. discriminate.
       * intros t'. apply thr_ok_upd_w; auto. rewrite Hw. discriminate.
       * intros k' e' Hin. apply In_rem_e in Hin. destruct Hin as [Hin Hne]. rewrite upd_other by exact Hne. eauto.
-  - (* LRelPut *) destruct (mem e (relc s)); inversion H; subst. exact I.
+  - (* LRelPut *) destruct (cm_mem e (relc s)); inversion H; subst. exact I.
   - (* LTick *) destruct (now s + d <? bclk s + 1000)%N; inversion H; subst. exact I.
   - (* LSync *) destruct ((bclk s <=? c)%N && (c <=? now s)%N); inversion H; subst. exact I.
 Qed.
 
-Lemma run_inv ls : forall s s', Inv s -> run ls s = Some s' -> Inv s'.
+Lemma run_inv ls : forall s s', Inv s -> cm_run ls s = Some s' -> Inv s'.
 Proof.
   induction ls as [|l ls IH]; intros s s' I H; cbn in H; [inversion H; subst; exact I|].
-  destruct (step s l) eqn:E; [|discriminate]. eapply IH; [|exact H]. eapply step_inv; eauto.
+  destruct (cm_step s l) eqn:E; [|discriminate]. eapply IH; [|exact H]. eapply step_inv; eauto.
 Qed.
 
 (* ---------- C07_hit_same_key ---------- *)
-Theorem hit_same_key : forall ls s, run ls init = Some s ->
-  forall l1 k v l2, trace s = l1 ++ EvHit k v :: l2 -> In (EvStore k v) l2.
+Theorem hit_same_key : forall ls s, cm_run ls cm_init = Some s ->
+  forall l1 k v l2, trace s = l1 ++ CmHit k v :: l2 -> In (CmStore k v) l2.
 Proof.
-  intros ls s H. pose proof (run_inv ls init s init_inv H) as (_ & _ & _ & Hh).
+  intros ls s H. pose proof (run_inv ls cm_init s init_inv H) as (_ & _ & _ & Hh).
   apply hits_ok_split. exact Hh.
 Qed.
 
-(* mutual exclusion, for the record: in every reachable state a write-locked entry has no reader, and a
+(* mutual exclusion, for the record: in every reachable state_cm a write-locked entry_cm has no reader, and a
    goroutine between its check and its copy still sees the key it checked *)
-Theorem lock_excludes_readers : forall ls s, run ls init = Some s ->
+Theorem lock_excludes_readers : forall ls s, cm_run ls cm_init = Some s ->
   forall e, e_w (ents s e) <> None -> e_r (ents s e) = [].
-Proof. intros ls s H e. pose proof (run_inv ls init s init_inv H) as (I1 & _). apply I1. Qed.
+Proof. intros ls s H e. pose proof (run_inv ls cm_init s init_inv H) as (I1 & _). apply I1. Qed.
 
-Theorem checked_key_stable : forall ls s, run ls init = Some s ->
+Theorem checked_key_stable : forall ls s, cm_run ls cm_init = Some s ->
   forall t k e, thr s t = GCopy k e -> e_k (ents s e) = k /\ e_v (ents s e) <> None /\ e_w (ents s e) = None.
 Proof.
-  intros ls s H t k e E. pose proof (run_inv ls init s init_inv H) as (I1 & I2 & _).
+  intros ls s H t k e E. pose proof (run_inv ls cm_init s init_inv H) as (I1 & I2 & _).
   specialize (I2 t). rewrite E in I2. cbn in I2. destruct I2 as (Hin & Hk & Hv). repeat split; auto.
   destruct (e_w (ents s e)) eqn:W; auto. exfalso. destruct (I1 e) as [A _].
   rewrite A in Hin by (rewrite W; discriminate). exact Hin.
 Qed.
 
-(* ---------- the quiescent operations are schedules of the small-step system ---------- *)
-Definition reach (s s' : state) : Prop := exists ls, run ls s = Some s'.
+(* ---------- the quiescent operations are schedules of the small-cm_step system ---------- *)
+Definition reach (s s' : state_cm) : Prop := exists ls, cm_run ls s = Some s'.
 
-Lemma run_app a : forall b s, run (a ++ b) s = match run a s with Some s1 => run b s1 | None => None end.
-Proof. induction a as [|l a IH]; intros b s; cbn; [reflexivity|]. destruct (step s l); auto. Qed.
+Lemma run_app a : forall b s, cm_run (a ++ b) s = match cm_run a s with Some s1 => cm_run b s1 | None => None end.
+Proof. induction a as [|l a IH]; intros b s; cbn; [reflexivity|]. destruct (cm_step s l); auto. Qed.
 
 Lemma reach_refl s : reach s s. Proof. exists []. reflexivity. Qed.
 Lemma reach_trans a b c : reach a b -> reach b c -> reach a c.
 Proof. intros [l1 H1] [l2 H2]. exists (l1 ++ l2). now rewrite run_app, H1. Qed.
-Lemma reach_step s l s1 : step s l = Some s1 -> reach s s1.
+Lemma reach_step s l s1 : cm_step s l = Some s1 -> reach s s1.
 Proof. intros H. exists [l]. cbn. now rewrite H. Qed.
-Lemma reach_run ls s s1 : run ls s = Some s1 -> reach s s1.
+Lemma reach_run ls s s1 : cm_run ls s = Some s1 -> reach s s1.
 Proof. intros H. exists ls. exact H. Qed.
 
 Lemma reach_drive fuel : forall t s s', drive fuel t s = Some s' -> reach s s'.
@@ -339,22 +339,22 @@ Proof.
   induction fuel as [|f IH]; intros t s s' H; cbn [drive] in H.
   - destruct (thr s t); inversion H; subst; apply reach_refl.
   - destruct (thr s t) eqn:E; try (inversion H; subst; apply reach_refl);
-      (destruct (step s (LStep t None)) eqn:Es; [|discriminate];
+      (destruct (cm_step s (LStep t None)) eqn:Es; [|discriminate];
        eapply reach_trans; [eapply reach_step; exact Es|eapply IH; exact H]).
 Qed.
 
 Lemma reach_big_store k v ttl nx s s' : big_store k v ttl nx s = Some s' -> reach s s'.
 Proof.
   unfold big_store. intros H.
-  destruct (step s (LStore k v ttl nx)) eqn:E1; [|discriminate].
-  destruct (step s0 (LStep (nthr s) (pool_choice s0))) eqn:E2; [|discriminate].
+  destruct (cm_step s (LStore k v ttl nx)) eqn:E1; [|discriminate].
+  destruct (cm_step s0 (LStep (nthr s) (pool_choice s0))) eqn:E2; [|discriminate].
   eapply reach_trans; [eapply reach_step; exact E1|].
   eapply reach_trans; [eapply reach_step; exact E2|]. eapply reach_drive; exact H.
 Qed.
 
 Lemma reach_big_get k s s' : big_get k s = Some s' -> reach s s'.
 Proof.
-  unfold big_get. intros H. destruct (step s (LGet k)) eqn:E1; [|discriminate].
+  unfold big_get. intros H. destruct (cm_step s (LGet k)) eqn:E1; [|discriminate].
   eapply reach_trans; [eapply reach_step; exact E1|]. eapply reach_drive; exact H.
 Qed.
 
@@ -367,7 +367,7 @@ Qed.
 
 Lemma reach_big_sleep d s s' : big_sleep d s = Some s' -> reach s s'.
 Proof.
-  unfold big_sleep. intros H. destruct (step s (LSync (now s))) eqn:E1; [|discriminate].
+  unfold big_sleep. intros H. destruct (cm_step s (LSync (now s))) eqn:E1; [|discriminate].
   destruct (d <? 1000)%N; [|discriminate].
   eapply reach_trans; eapply reach_step; eauto.
 Qed.
@@ -375,22 +375,22 @@ Qed.
 Lemma reach_big_race ph k k2 v2 s s' : big_race ph k k2 v2 s = Some s' -> reach s s'.
 Proof.
   unfold big_race. intros H.
-  destruct (step s (LGet k)) eqn:E1; [|discriminate].
-  destruct (step s0 (LStep (nthr s) None)) eqn:E2; [|discriminate].
+  destruct (cm_step s (LGet k)) eqn:E1; [|discriminate].
+  destruct (cm_step s0 (LStep (nthr s) None)) eqn:E2; [|discriminate].
   eapply reach_trans; [eapply reach_step; exact E1|].
   eapply reach_trans; [eapply reach_step; exact E2|].
   destruct (thr s1 (nthr s)); try (injection H as <-; apply reach_refl).
   destruct (index_b k (backend s1)) as [[i e']|]; [|injection H as <-; apply reach_refl].
   destruct ph as [|[|ph]].
-  - destruct (run [LEvict i; LRelLock k e] s1) eqn:R1; [|discriminate].
+  - destruct (cm_run [LEvict i; LRelLock k e] s1) eqn:R1; [|discriminate].
     destruct (drive 8 (nthr s) s2) eqn:D; [|discriminate].
     eapply reach_trans; [eapply reach_run; exact R1|].
     eapply reach_trans; [eapply reach_drive; exact D|]. eapply reach_run; exact H.
-  - destruct (run [LEvict i; LRelLock k e; LRelClear k e] s1) eqn:R1; [|discriminate].
+  - destruct (cm_run [LEvict i; LRelLock k e; LRelClear k e] s1) eqn:R1; [|discriminate].
     destruct (drive 8 (nthr s) s2) eqn:D; [|discriminate].
     eapply reach_trans; [eapply reach_run; exact R1|].
     eapply reach_trans; [eapply reach_drive; exact D|]. eapply reach_run; exact H.
-  - destruct (run [LEvict i; LRelLock k e; LRelClear k e; LRelPut e] s1) eqn:R1; [|discriminate].
+  - destruct (cm_run [LEvict i; LRelLock k e; LRelClear k e; LRelPut e] s1) eqn:R1; [|discriminate].
     destruct (big_store k2 v2 3600000 false s2) eqn:B; [|discriminate].
     eapply reach_trans; [eapply reach_run; exact R1|].
     eapply reach_trans; [eapply reach_big_store; exact B|]. eapply reach_drive; exact H.
@@ -417,9 +417,9 @@ Proof.
 Qed.
 
 (* hence the histories replayed against the implementation satisfy the trace property too *)
-Corollary big_hit_same_key : forall os s, big_run os init = Some s ->
-  forall l1 k v l2, trace s = l1 ++ EvHit k v :: l2 -> In (EvStore k v) l2.
-Proof. intros os s H. destruct (big_refines_small os init s H) as [ls Hl]. eapply hit_same_key; eauto. Qed.
+Corollary big_hit_same_key : forall os s, big_run os cm_init = Some s ->
+  forall l1 k v l2, trace s = l1 ++ CmHit k v :: l2 -> In (CmStore k v) l2.
+Proof. intros os s H. destruct (big_refines_small os cm_init s H) as [ls Hl]. eapply hit_same_key; eauto. Qed.
 
 (* ---------- value encoding ---------- *)
 Section ValueProofs.
@@ -443,9 +443,9 @@ End ValueProofs.
 
 (* ---------- C07_repeat_hits: a stored key is found again while more than 1 s of its lifetime remains ---------- *)
 (* quiescent states: no lock is held *)
-Definition QU (s : state) : Prop := forall e, e_w (ents s e) = None /\ e_r (ents s e) = [].
+Definition QU (s : state_cm) : Prop := forall e, e_w (ents s e) = None /\ e_r (ents s e) = [].
 (* the backend clock lags real time by less than one second *)
-Definition clock_ok (s : state) : Prop := (bclk s <= now s)%N /\ (now s < bclk s + 1000)%N.
+Definition clock_ok (s : state_cm) : Prop := (bclk s <= now s)%N /\ (now s < bclk s + 1000)%N.
 
 Lemma ceil_s_ge ttl : (ttl <= ceil_s ttl)%N.
 Proof.
@@ -457,25 +457,25 @@ Proof. intros H. destruct f; cbn [drive]; rewrite H; reflexivity. Qed.
 
 Lemma drive_next f t s s1 : thr s t <> Idle -> step_thread s t None = Some s1 -> drive (S f) t s = drive f t s1.
 Proof.
-  intros Hn Hs. cbn [drive]. change (step s (LStep t None)) with (step_thread s t None). rewrite Hs.
+  intros Hn Hs. cbn [drive]. change (cm_step s (LStep t None)) with (step_thread s t None). rewrite Hs.
   destruct (thr s t); try reflexivity. congruence.
 Qed.
 
-Lemma init_QU : QU init. Proof. intros e. cbn. auto. Qed.
-Lemma init_clock : clock_ok init. Proof. unfold clock_ok; cbn. lia. Qed.
+Lemma init_QU : QU cm_init. Proof. intros e. cbn. auto. Qed.
+Lemma init_clock : clock_ok cm_init. Proof. unfold clock_ok; cbn. lia. Qed.
 
-(* Get on a quiescent state: runs to completion, changes nothing but the trace (and thread bookkeeping), and
-   its result is determined by the backend binding and the entry it points to *)
-Definition get_result (s : state) (k : list N) : event :=
+(* Get on a quiescent state_cm: runs to completion, changes nothing but the trace (and thread bookkeeping), and
+   its result is determined by the backend binding and the entry_cm it points to *)
+Definition get_result (s : state_cm) (k : list N) : event_cm :=
   match find_b k (backend s) with
   | Some b =>
     if (bclk s <? b_exp b)%N then
       match e_v (ents s (b_e b)) with
-      | Some v => if list_eqb (e_k (ents s (b_e b))) k then EvHit k v else EvMiss k
-      | None => EvMiss k
+      | Some v => if list_eqb (e_k (ents s (b_e b))) k then CmHit k v else CmMiss k
+      | None => CmMiss k
       end
-    else EvMiss k
-  | None => EvMiss k
+    else CmMiss k
+  | None => CmMiss k
   end.
 
 Lemma rem_self t : rem t [t] = [].
@@ -501,7 +501,7 @@ Lemma big_get_spec s k : QU s ->
   exists s', big_get k s = Some s' /\ backend s' = backend s /\ (forall e, ents s' e = ents s e) /\
              now s' = now s /\ bclk s' = bclk s /\ trace s' = get_result s k :: trace s.
 Proof.
-  intros Q. unfold big_get, get_result. cbn [step].
+  intros Q. unfold big_get, get_result. cbn [cm_step].
   set (t := nthr s). set (s1 := spawn s (GLook k)).
   assert (T1 : thr s1 t = GLook k) by (unfold s1, spawn; cbn; apply upd_same).
   (* GLook *)
@@ -552,7 +552,7 @@ Proof.
       cbn. apply upd_same.
     + eapply (get_finish s s5 t e); try reflexivity; auto.
       change (ents s5 e) with (ents s3 e). rewrite E3. fold x. rewrite Ev. reflexivity.
-  - (* the entry carries another key *)
+  - (* the entry_cm carries another key *)
     set (s4 := with_thr s3 t (GUnlockMiss k e)).
     assert (S3 : step_thread s3 t None = Some s4).
     { unfold step_thread. rewrite T3, E3. cbn [e_v e_k]. rewrite Ek. reflexivity. }
@@ -566,7 +566,7 @@ Proof.
       cbn. apply upd_same.
     + eapply (get_finish s s4 t e); try reflexivity; auto.
       change (ents s4 e) with (ents s3 e). rewrite E3. fold x. rewrite Ev. reflexivity.
-  - (* the entry has been released *)
+  - (* the entry_cm has been released *)
     set (s4 := with_thr s3 t (GUnlockMiss k e)).
     assert (S3 : step_thread s3 t None = Some s4).
     { unfold step_thread. rewrite T3, E3. reflexivity. }
@@ -582,7 +582,7 @@ Proof.
       change (ents s4 e) with (ents s3 e). rewrite E3. fold x. rewrite Ev. reflexivity.
 Qed.
 
-(* Store (Set, not SetIfAbsent) from the point where the entry has been taken from the pool *)
+(* Store (Set, not SetIfAbsent) from the point where the entry_cm has been taken from the pool *)
 Lemma store_from_lock sL t k v ttl e : thr sL t = SLock k v ttl false e -> QU sL ->
   exists s2, drive 8 t sL = Some s2 /\
     find_b k (backend s2) = Some (mkB k e (bclk sL + ceil_s ttl)) /\
@@ -664,21 +664,21 @@ Lemma big_store_spec s k v ttl : QU s ->
     find_b k (backend s2) = Some (mkB k e (bclk s + ceil_s ttl)) /\
     ents s2 e = mkEntry k (Some v) None [] /\ QU s2 /\ now s2 = now s /\ bclk s2 = bclk s.
 Proof.
-  intros Q. unfold big_store. cbn [step].
-  set (t := nthr s). set (s1 := with_ev (spawn s (SNew k v ttl false)) (EvStore k v)).
+  intros Q. unfold big_store. cbn [cm_step].
+  set (t := nthr s). set (s1 := with_ev (spawn s (SNew k v ttl false)) (CmStore k v)).
   assert (T1 : thr s1 t = SNew k v ttl false) by (unfold s1; cbn; apply upd_same).
   unfold pool_choice. change (free s1) with (free s).
   destruct (free s) as [|e0 fr] eqn:Fr.
   - set (sL := with_thr (with_pool s1 (S (nent s)) (free s1) (nent s :: issued s1)) t (SLock k v ttl false (nent s))).
     assert (S1 : step_thread s1 t None = Some sL) by (unfold step_thread; rewrite T1; reflexivity).
-    change (step s1 (LStep t None)) with (step_thread s1 t None). rewrite S1.
+    change (cm_step s1 (LStep t None)) with (step_thread s1 t None). rewrite S1.
     destruct (store_from_lock sL t k v ttl (nent s)) as (s2 & D & F & E & Q2 & N2 & C2 & _);
       [unfold sL; cbn; apply upd_same|intros e'; apply Q|].
     exists s2, (nent s). repeat split; auto; try apply Q2.
   - set (sL := with_thr (with_pool s1 (nent s1) fr (e0 :: issued s1)) t (SLock k v ttl false e0)).
     assert (S1 : step_thread s1 t (Some 0) = Some sL).
     { unfold step_thread. rewrite T1. change (free s1) with (free s). rewrite Fr. reflexivity. }
-    change (step s1 (LStep t (Some 0))) with (step_thread s1 t (Some 0)). rewrite S1.
+    change (cm_step s1 (LStep t (Some 0))) with (step_thread s1 t (Some 0)). rewrite S1.
     destruct (store_from_lock sL t k v ttl e0) as (s2 & D & F & E & Q2 & N2 & C2 & _);
       [unfold sL; cbn; apply upd_same|intros e'; apply Q|].
     exists s2, e0. repeat split; auto; try apply Q2.
@@ -690,11 +690,11 @@ Definition passive (o : op) : Prop := match o with OGet _ | OSleep _ => True | _
 Lemma big_sleep_spec s d s1 : clock_ok s -> big_sleep d s = Some s1 ->
   backend s1 = backend s /\ (forall e, ents s1 e = ents s e) /\ clock_ok s1.
 Proof.
-  intros [C1 C2] E. unfold big_sleep in E. cbn [step] in E.
+  intros [C1 C2] E. unfold big_sleep in E. cbn [cm_step] in E.
   assert ((bclk s <=? now s)%N && (now s <=? now s)%N = true) as Hs
     by (apply andb_true_iff; split; apply N.leb_le; lia).
   rewrite Hs in E. destruct (d <? 1000)%N eqn:Hd; [|discriminate]. apply N.ltb_lt in Hd.
-  cbn [step now bclk with_time] in E.
+  cbn [cm_step now bclk with_time] in E.
   assert ((now s + d <? now s + 1000)%N = true) as Ht by (apply N.ltb_lt; lia).
   rewrite Ht in E. inversion E; subst. unfold clock_ok. cbn. repeat split; auto; lia.
 Qed.
@@ -731,7 +731,7 @@ Theorem repeat_hits s k v ttl : QU s -> clock_ok s ->
   exists s2, big_store k v ttl false s = Some s2 /\
     forall ops s3, Forall passive ops -> big_run ops s2 = Some s3 ->
       (now s3 + 1000 < now s + ttl)%N ->                      (* more than 1 s of the lifetime remains *)
-      exists s4, big_get k s3 = Some s4 /\ trace s4 = EvHit k v :: trace s3.
+      exists s4, big_get k s3 = Some s4 /\ trace s4 = CmHit k v :: trace s3.
 Proof.
   intros Q C. destruct (big_store_spec s k v ttl Q) as (s2 & e & St & Fb & En & Q2 & N2 & C2).
   exists s2. split; [exact St|]. intros ops s3 Hp Hr Hlife.
@@ -767,15 +767,15 @@ Proof.
 Qed.
 Transparent big_store big_get big_evict big_race big_sleep.
 
-(* from the initial state: after any quiescent history of stores, lookups and sleeps *)
+(* from the initial state_cm: after any quiescent history of stores, lookups and sleeps *)
 Corollary repeat_hits_history : forall ops1 s1 k v ttl,
-  Forall simple ops1 -> big_run ops1 init = Some s1 ->
+  Forall simple ops1 -> big_run ops1 cm_init = Some s1 ->
   exists s2, big_store k v ttl false s1 = Some s2 /\
     forall ops2 s3, Forall passive ops2 -> big_run ops2 s2 = Some s3 ->
       (now s3 + 1000 < now s1 + ttl)%N ->
-      exists s4, big_get k s3 = Some s4 /\ trace s4 = EvHit k v :: trace s3.
+      exists s4, big_get k s3 = Some s4 /\ trace s4 = CmHit k v :: trace s3.
 Proof.
   intros ops1 s1 k v ttl Hs Hr.
-  destruct (simple_history_quiescent ops1 init s1 Hs init_QU init_clock Hr) as [Q C].
+  destruct (simple_history_quiescent ops1 cm_init s1 Hs init_QU init_clock Hr) as [Q C].
   apply repeat_hits; assumption.
 Qed.
